@@ -211,6 +211,7 @@ func (fr *Frame) nilCheck(in ssa.Instruction, p Val, what string) {
 // execInstr returns true when the block is finished (terminator executed).
 func (fr *Frame) execInstr(in ssa.Instruction) bool {
 	e := fr.e
+	e.curInstr = in
 	pos := e.posOf(in.Pos())
 	switch x := in.(type) {
 	case *ssa.DebugRef:
@@ -251,6 +252,25 @@ func (fr *Frame) execInstr(in ssa.Instruction) bool {
 				e.registerLocal(r, fr.pc, e.keysOfType(T, false))
 			} else if arr, ok := T.Underlying().(*types.Array); ok && !isAggregate(arr.Elem()) {
 				e.registerLocal(r, fr.pc, e.keysOfType(T, false))
+			}
+		}
+		if x.Heap && !nonEscaping(x, 0) {
+			// escapes, but perhaps only later: until then calls with unknown effects cannot reach it
+			if st := structOf(T); st != nil {
+				if sites, ok := escapeSites(x, 0); ok && len(sites) > 0 {
+					var keys []string
+					for i := 0; i < st.NumFields(); i++ {
+						ft := st.Field(i).Type()
+						if _, isSlice := ft.Underlying().(*types.Slice); isSlice || !isAggregate(ft) {
+							keys = append(keys, e.keysOfStorage(T, st.Field(i).Name(), ft)...)
+						}
+					}
+					e.registerLocalUntil(r, fr.pc, keys, x.Parent(), sites)
+				}
+			} else if arr, ok := T.Underlying().(*types.Array); ok && !isAggregate(arr.Elem()) {
+				if sites, ok := escapeSites(x, 0); ok && len(sites) > 0 {
+					e.registerLocalUntil(r, fr.pc, e.keysOfType(T, false), x.Parent(), sites)
+				}
 			}
 		}
 		fr.set(x, Val{S: r, NN: true})
